@@ -16,7 +16,7 @@
 (* so one pass gives independent verdicts for all properties that share the *)
 (* trace and a failure does not leave the rest of the trace unexamined.     *)
 (***************************************************************************)
-EXTENDS Naturals, Integers, Sequences, FiniteSets, TLC, Json, IOUtils, StoreInv
+EXTENDS Naturals, Integers, Sequences, FiniteSets, TLC, Json, IOUtils, StoreInv, Access
 
 Rec == ndJsonDeserialize(IOEnv.TRACE)
 NRec == Len(Rec)
@@ -286,6 +286,7 @@ OpNoChange ==   \* reserve, shrink_to_fit
 SameValuesFreshTokens(src, dst, prop) ==
   /\ Chk(prop, "copy-content", Vals(Ents(PostWs[dst])) = Vals(Ents(PreWs[src])))
   /\ Chk(prop, "copy-resources", ResVals(PostWs[dst]) = ResVals(PreWs[src]))
+  /\ Chk("C15", "copy-lost-or-altered-a-resource", ResVals(PostWs[dst]) = ResVals(PreWs[src]))
   /\ Chk(prop, "copy-shares-values", TokSet([w \in Worlds |-> IF w = dst THEN PostWs[w] ELSE DeadW])
                                         \cap tok = {})
 
@@ -328,6 +329,98 @@ OpViewRes ==
   /\ Chk("C15", "view-write-not-visible", PostWs[E.w].res = want)
   /\ Chk("C15", "resource-op-changed-entities", Post = Pre)
   /\ UNCHANGED issued
+
+
+-----------------------------------------------------------------------------
+(* Queries (C03, C09).  E.desc is the query descriptor (Access.tla format):  *)
+(*   kind: iter | par | entry | entries | mixed;  views: what is viewed per   *)
+(*   component (for `entries` these are the sub-views);  super: the declared  *)
+(*   entry views;  sub: sub-views used by `mixed`;  id: identifier view.      *)
+VT(x) == [v |-> x.v, t |-> x.t]
+ItemVT(it) == [c \in DOMAIN it.c |-> VT(it.c[c])]
+ExpItem(vw, rec) == [c \in {c \in Comps : vw[c] # "none" /\ c \in DOMAIN rec} |-> rec[c]]
+Written(vw, rec, dv) ==
+  [c \in DOMAIN rec |-> IF vw[c] \in {"mut", "optmut"}
+                        THEN [v |-> Norm(c, rec[c].v + dv), t |-> rec[c].t] ELSE rec[c]]
+QMatch(vw, f, arch) == Eval(f, arch) /\ {c \in Comps : vw[c] \in {"ref", "mut"}} \subseteq arch
+QP == IF E.desc.kind = "par" THEN "C09" ELSE "C03"
+
+IterPart(M, items) ==
+  LET d == E.desc
+      n == Cardinality(M) IN
+  /\ Chk(QP, "result-count", Len(items) = n)
+  /\ IF d.id
+     THEN /\ Chk(QP, "result-identifiers", {items[k].id : k \in DOMAIN items} = M)
+          /\ Chk(QP, "result-values",
+                 \A k \in DOMAIN items : items[k].id \in M =>
+                     ItemVT(items[k]) = ExpItem(d.views, Pre[items[k].id]))
+     ELSE Chk(QP, "result-multiset",
+              \A k \in DOMAIN items :
+                 Cardinality({j \in DOMAIN items : ItemVT(items[j]) = ItemVT(items[k])})
+                 = Cardinality({id \in M : ExpItem(d.views, Pre[id]) = ItemVT(items[k])}))
+  /\ Chk(QP, "corrupt-value-in-result",
+         \A k \in DOMAIN items : \A c \in DOMAIN items[k].c : "bad" \notin DOMAIN items[k].c[c])
+  /\ Chk("C09", "two-results-give-mutable-access-to-one-value",
+         \A c \in Comps \ {"Z"} :
+            LET ks == {k \in DOMAIN items : c \in DOMAIN items[k].c /\ items[k].c[c].m} IN
+            Cardinality({items[k].c[c].a : k \in ks}) = Cardinality(ks))
+
+OpQueryIter ==
+  LET d == E.desc
+      M == {id \in DOMAIN Pre : QMatch(d.views, d.filter, DOMAIN Pre[id])}
+      n == Cardinality(M)
+      hs == E.res.hints IN
+  /\ IterPart(M, E.res.items)
+  /\ Chk(QP, "writes-through-views",
+         Post = [id \in DOMAIN Pre |-> IF id \in M THEN Written(d.views, Pre[id], E.v) ELSE Pre[id]])
+  /\ Chk("C03", "size_hint",
+         d.kind = "par" \/
+         (/\ Len(hs) = n + 1
+          /\ \A k \in DOMAIN hs : /\ hs[k][1] <= n - (k - 1)
+                                  /\ (hs[k][2] = -1 \/ n - (k - 1) <= hs[k][2])))
+  /\ ResSame(E.w)
+  /\ UNCHANGED issued
+
+(* single-entity query through World::entry or through query-time Entries *)
+OpQueryOne ==
+  LET d == E.desc
+      live == E.id \in DOMAIN Pre
+      hit == live /\ QMatch(d.views, d.filter, DOMAIN Pre[E.id])
+      items == E.res.items IN
+  /\ Chk("C02", "entry-resolution", E.res.found = live)
+  /\ Chk("C03", "single-entity-query-result",
+         IF hit
+         THEN /\ Len(items) = 1
+              /\ ItemVT(items[1]) = ExpItem(d.views, Pre[E.id])
+              /\ (d.id => items[1].id = E.id)
+         ELSE Len(items) = 0)
+  /\ Chk("C03", "single-entity-query-writes",
+         Post = [id \in DOMAIN Pre |-> IF hit /\ id = E.id THEN Written(d.views, Pre[id], E.v) ELSE Pre[id]])
+  /\ ResSame(E.w)
+  /\ UNCHANGED issued
+
+(* iterate with Views while reaching one designated entity through disjoint entry views *)
+OpQueryMixed ==
+  LET d == E.desc
+      M == {id \in DOMAIN Pre : QMatch(d.views, d.filter, DOMAIN Pre[id])}
+      reached == M # {} /\ E.id \in DOMAIN Pre
+      hit == reached /\ QMatch(d.sub, <<"none">>, DOMAIN Pre[E.id])
+      via == E.res.via
+      iterw(id) == IF id \in M THEN Written(d.views, Pre[id], E.v) ELSE Pre[id] IN
+  /\ IterPart(M, E.res.items)
+  /\ Chk("C02", "entries-entry-resolution", E.res.found = reached)
+  /\ Chk("C03", "entry-views-during-iteration",
+         IF hit THEN Len(via) = 1 /\ ItemVT(via[1]) = ExpItem(d.sub, Pre[E.id]) ELSE Len(via) = 0)
+  /\ Chk("C03", "writes-through-views-and-entry-views",
+         Post = [id \in DOMAIN Pre |->
+                   IF hit /\ id = E.id THEN Written(d.sub, iterw(id), E.v) ELSE iterw(id)])
+  /\ ResSame(E.w)
+  /\ UNCHANGED issued
+
+OpQuery ==
+  CASE E.desc.kind \in {"iter", "par"} -> OpQueryIter
+    [] E.desc.kind \in {"entry", "entries"} -> OpQueryOne
+    [] E.desc.kind = "mixed" -> OpQueryMixed
 
 -----------------------------------------------------------------------------
 (* Lock-step twins (C06 / C10): an op flagged m=2 repeats the previous op on  *)
@@ -409,6 +502,7 @@ FullStep ==
        [] E.op = "serde" -> OpSerde
        [] E.op = "getmut" -> OpGetMut
        [] E.op = "viewres" -> OpViewRes
+       [] E.op = "query" -> OpQuery
        [] E.op = "new" -> OpNew
        [] E.op = "drop" -> OpDrop
        [] E.op = "reset" -> OpReset
